@@ -9,7 +9,7 @@ V=/verif; W=/tmp/nm; rm -rf $W; mkdir -p $W
 git -C /repo worktree prune
 git -C /repo worktree add -q --detach $W/wt HEAD || exit 2
 seeds=("$@"); [ ${#seeds[@]} = 0 ] && seeds=($V/neutral/*/)
-props=$($V/bin/rcheck -list)
+props=${PROPS:-$($V/bin/rcheck -list)}
 for s in "${seeds[@]}"; do
   s=$(cd ${s%/} && pwd); name=$(basename $s)
   (cd $W/wt && git checkout -q -- . && git clean -fdq)
